@@ -272,24 +272,32 @@ func VP_C18_sqs_xattr_index() {
 	}
 }
 
-// VP_C18_sqs_xattr_find: xAttrTable.find with an arbitrary index entry over arbitrary xattr data.
+// VP_C18_sqs_xattr_find: xAttrTable.find over well-formed xattr data of three attributes (1-byte names
+// "a","b","c", values of 1, 1 and 0 bytes; type and value bytes arbitrary) with an arbitrary attribute count in the
+// index entry. (Names are map keys and must be concrete for the engine; arbitrary layouts are not explored.)
 func VP_C18_sqs_xattr_find() {
-	n := vp.Bound("xattrdata", 28, 56)
-	data := vp.Bytes("xdata", n)
+	data := vp.Bytes("xdata", 29)
+	for k := 0; k < 3; k++ {
+		o := 10 * k
+		data[o+2], data[o+3] = 1, 0 // name size
+		data[o+4] = byte('a' + k)
+		data[o+5], data[o+6], data[o+7], data[o+8] = 1, 0, 0, 0 // value size
+	}
+	data[25] = 0 // the third value is empty: the data ends with its size field
 	cnt := vp.U32("count")
-	vp.Assume(cnt <= 3)
-	// pos is what parseXAttrIndex builds: a 16-bit offset plus a 32-bit block offset
-	pos := uint64(vp.U16("pos.lo")) + uint64(vp.U32("pos.block"))
-	x := &xAttrTable{list: []*xAttrIndex{{pos: pos, count: cnt, size: vp.U32("size")}}, data: data}
+	x := &xAttrTable{list: []*xAttrIndex{{pos: 0, count: cnt, size: vp.U32("size")}}, data: data}
 	vp.Unwind(6)
-	// KF-C18-32: the read pointer is advanced by the absolute end of the previous attribute instead of
-	// being set to it: from the third attribute on it lies beyond the data
-	vp.KnownPanic("KF-C18-32", "squashfs.xAttrTable).find)")
+	if cnt >= 3 {
+		// KF-C18-32: the read pointer is advanced by the absolute end of the previous attribute instead of
+		// being set to it: from the third attribute on it lies beyond the data
+		vp.KnownPanic("KF-C18-32", "squashfs.xAttrTable).find)")
+	}
 	vp.NoPanic()
-	m, err := x.find(int(vp.U8("index")))
+	m, err := x.find(0)
 	vp.AllowPanic()
 	if err == nil {
-		vp.Assert(len(m) <= int(cnt), "no more attributes than announced")
+		vp.Assert(uint32(len(m)) <= cnt, "no more attributes than announced")
+		vp.Assert(cnt <= 3, "no more attributes than the data holds")
 		vp.Cover("xattrs found")
 	} else {
 		vp.Cover("xattrs rejected")
@@ -390,13 +398,29 @@ func VP_C18_sqs_dirent_uid() {
 	vp.Cover("done")
 }
 
+// c18SqsDev is the image of c18SqsRead: the superblock at 0, arbitrary bytes behind it. Reads are
+// case-split on the offset (superblock bytes are not looked up through symbolic offsets); table pointers
+// into the superblock itself are outside the explored inputs (Assume).
+type c18SqsDev struct {
+	c18Dev
+	sb []byte
+}
+
+func (d *c18SqsDev) ReadAt(p []byte, off int64) (int, error) {
+	if off == 0 {
+		return copy(p, d.sb), nil
+	}
+	vp.Assume(off >= 96)
+	return d.c18Dev.ReadAt(p, off)
+}
+
 // c18SqsRead: squashfs.Read on an image with a well-formed superblock header (magic, version 4.0, block
 // size/log as given, no compression, no xattr table) and ARBITRARY table offsets, root inode reference and
 // id count (variant "ids": no fragments) or fragment count (variant "frags": no ids); the rest of the
 // image is arbitrary.
 func c18SqsRead(blocksize uint32, blocklog uint16, frags bool) {
 	const size = 256
-	dev := c18NewDev("img", size)
+	dev := &c18SqsDev{c18Dev: *c18NewDev("img", size)}
 	sb := vp.Bytes("sb", 96)
 	binary.LittleEndian.PutUint32(sb[0:], 0x73717368)
 	binary.LittleEndian.PutUint32(sb[8:], 0)
@@ -410,10 +434,12 @@ func c18SqsRead(blocksize uint32, blocklog uint16, frags bool) {
 		binary.LittleEndian.PutUint16(sb[26:], 0) // no ids
 	} else {
 		binary.LittleEndian.PutUint32(sb[16:], 0) // no fragments
+		// one index block of ids (more blocks only repeat the same reader loop)
+		vp.Assume(binary.LittleEndian.Uint16(sb[26:]) <= 2048)
 	}
-	dev.put(0, sb)
+	dev.sb = sb
 	limit := uint64(2*size + c18Slack)
-	vp.Unwind(24)
+	vp.Unwind(40)
 	vp.MaxLoop(140) // every metadata block consumes at least its 2-byte header of a 256-byte image
 	vp.AllocCap(vp.Bound("alloccap", 40, 80))
 	vp.AllocLimit(limit)
